@@ -21,14 +21,14 @@ import rules_struct
 
 PROPS = {
     "C02": {
-        "rules": [rules_wt.run, rules_follow.make("R-HDR", "C02"), rules_follow.make("R-INIT", "C02"), rules_struct.freshid, rules_struct.hdrcount("C02")],
+        "rules": [rules_wt.run, rules_follow.make("R-HDR", "C02"), rules_follow.make("R-INIT", "C02"), rules_struct.freshid, rules_struct.hdrcount("C02"), rules_struct.parenttype("C02")],
         "explanation": "R-WT: every store site to an in-memory mirror of on-disk state (cached FAT/DIFAT/DIFAT-sector list, MiniFAT and its start sector, directory entry table, sector count; enumerated automatically from MIR: &mut borrows of mirror fields, stores through dir_entry_mut, direct field stores) is paired in the same function with a file write of the same datum "
                        "(same value by provenance, or write_dir_entry/write_to/seek_within_dir_entry+write_le_u32 of the same entry id at the field's offset), either dominating the store or on every Ok path after it; six listed exceptions with reasons. "
                        "R-HDR: header counters (words 40/44/60/64/68/72) are rewritten in the same function that changes the chain they count, on every Ok path. R-INIT: every sector handed out by allocate_sector - reused from the free list or appended - is reset with the caller's initialiser before it is returned (a directory sector recycled without SectorInit::Dir would reopen as garbage entries).",
         "not_decided": "that the bytes reopen to the same state; that the right value is written; crash points inside an operation",
     },
     "C03": {
-        "rules": [rules_follow.make("R-MARK"), rules_follow.make("R-HDR", "C03"), rules_follow.make("R-BLANK"), rules_follow.make("R-INIT", "C03"), rules_own.make("C03"), rules_entry.gstore, rules_layout.run("C03"), rules_struct.cutoff, rules_struct.unit, rules_struct.freshid, rules_follow.make("R-FREEOLD", "C03"), rules_struct.hdrcount("C03")],
+        "rules": [rules_follow.make("R-MARK"), rules_follow.make("R-HDR", "C03"), rules_follow.make("R-BLANK"), rules_follow.make("R-INIT", "C03"), rules_own.make("C03"), rules_entry.gstore, rules_layout.run("C03"), rules_struct.cutoff, rules_struct.unit, rules_struct.freshid, rules_follow.make("R-FREEOLD", "C03"), rules_struct.hdrcount("C03"), rules_struct.parenttype("C03")],
         "explanation": "Format-maintenance obligations visible as code shape: R-MARK (FAT/DIFAT sectors marked as such; allocated cell END_OF_CHAIN before use; freed cells FREE), R-HDR (header counts follow the chains), "
                        "R-BLANK (a removed entry's slot is overwritten with DirEntry::unallocated() on disk), R-GSTORE (no CLSID/timestamps on streams: every store to those fields is dominated by a test excluding ObjType::Stream; only storages are stamped at creation), R-OWN (allocation protocol: who may change FAT cells / free lists / initialise sectors), R-LAYOUT (symbolic walk of DirEntry::read_from/write_to and Header::read_from/write_to in control-flow order: same widths, counts and fields at the same offsets, totals 128 and 512, in-place patch offsets 68/72/76 and 40/44/60/64/68/72/76 equal the derived field offsets).",
         "not_decided": "single ownership of sectors, no orphans, chain length vs stream size, sibling-tree order and colouring: invariants over the contents of FAT and directory across histories",
@@ -133,6 +133,26 @@ PROPS = {
         "not_decided": "what a sequence of read-only calls observes across several acquisitions; backends that call back into the same CompoundFile; termination of critical sections (C05/C11)",
     },
 }
+
+
+# rules added after the seeded-change rounds (DESIGN.md section 9.2): what each decides, appended to the explanations
+_ADDED = {
+    "C02": " R-FRESHID: two sector ids taken as fat.len()/minifat.len() are separated by the growth of the table caused by entering the first. R-HDRCOUNT: whoever changes the length of the MiniFAT chain or the directory chain rewrites the header's sector count on every Ok path.",
+    "C03": " R-CUTOFF: all tests against MINI_STREAM_CUTOFF have the same sense. R-UNIT: compare_names orders by length in UTF-16 code units. R-FRESHID, R-HDRCOUNT as for C02. R-FREEOLD: a stream that already has a chain gets a fresh one only after the old one was freed (no allocated sector without an owner).",
+    "C06": " R-POSKEEP: position = window offset + cursor is kept by every window restart outside seek/set_len; set_len stores min(position, size); the length shrinks only in set_len and a length change re-establishes the window.",
+    "C07": " R-CUTOFF (a stream of exactly CUTOFF bytes is never treated as the other kind, whose start id would address another stream's sectors). R-MOVEALL: an entry carried to another slot travels whole. R-UNLINK: a slot is released only for a node whose two sibling links were examined since it was named. R-BLANKOWN: blank entries enter the table only in free_dir_entry/allocate_dir_entry.",
+    "C08": " The zero-fill helper itself can return Ok without writing zeros only when the range is tested empty. R-POSKEEP: a handle's buffered window does not survive a length change (stale bytes beyond the new end would reappear after a later grow).",
+    "C09": " R-UNIT: shortlex length key in UTF-16 units. R-UNLINK/R-BLANKOWN: removal never cuts other names out of the sibling tree.",
+    "C11": " R-FREELIST: after the cached FAT/MiniFAT is shortened the matching free list is filtered or rebuilt (allocate_* index the table with free-list ids unchecked).",
+    "C12": " R-ERRDISC: every way out of an Err arm reports the error or retries the call. R-NOERRAFTER: no error exit after a Read::read/Write::write implementation advanced its position.",
+    "C13": " R-WTORDER: FAT/MiniFAT cells and the MiniFAT start are written to the file before memory is updated (a failed write must be repeated by the retry). R-RETRY: the half-done additions of append_fat_sector are undone on its error exits; the mini stream grows before the MiniFAT gains an entry (defects D16/D17, repaired).",
+    "C15": " R-CAP also checks the unit of the capacity test (4-byte MiniFAT entries; MINI_SECTOR_LEN for the mini stream). R-REUSE.consult requires a scan of the whole entry table before a directory slot is appended.",
+    "C16": " R-MODE.I / R-MODE.N: data that a tolerated deviation discards (the root entry's stored name, the surplus of an over-long MiniFAT) is not examined by a mode-independent refusal before it is discarded.",
+    "C17": " R-MOVEALL: when remove_dir_entry moves an entry to another slot it keeps its own CLSID, state bits and times.",
+    "C18": " R-POSKEEP: the outcome of a window roll-over does not depend on where the window happened to be (buffer size). R-KINDKEEP: backend errors are not re-wrapped without their kind, so Interrupted reaches std's retry loops.",
+}
+for _pid, _txt in _ADDED.items():
+    PROPS[_pid]["explanation"] = PROPS[_pid]["explanation"] + _txt
 
 
 def explain(path):
